@@ -3,7 +3,8 @@
 set -e
 cd "$(dirname "$0")/.."
 mkdir -p _work evidence replays coq/extracted
-( cd coq && coq_makefile -f _CoqProject -o Makefile > /dev/null && timeout 3000 make -k -j16 > ../_work/coq-setup.log 2>&1 ) || { tail -40 _work/coq-setup.log; echo "setup: Coq build had failures (checks will report them)"; }
+python3 -c 'import sys; sys.path.insert(0, "harness/py"); import vlib; vlib.coq_setup_makefile()'
+( cd coq && timeout 3000 make -k -j16 > ../_work/coq-setup.log 2>&1 ) || { tail -40 _work/coq-setup.log; echo "setup: Coq build had failures (checks will report them)"; }
 python3 - <<'PY'
 import sys; sys.path.insert(0, "harness/py")
 import vlib
